@@ -20,6 +20,9 @@ TEXT = {
     'C10': ('Theorems for EVERY state and EVERY event: C10.untouched_by_others (an event about another connection or the clock leaves every field of a connection\'s record alone, except PUBLISH frames appended while it is open and forgetting it when it is already closing), closing_is_own, open_stays_subscribed, only_publishes_from_others; termination = totality of Broker.step / fuel-free Broker.loop (rests on C07). What a well-behaved connection is entitled to: C01 theorems hold for all histories.', BROKER_NOTE + ' Resource exhaustion and hangs inside C code are runtime: per-event watchdog only.'),
     'C14': ('Theorems: C14.parks / auth_parks (an OP_AUTH with an asynchronous store records the look-up, pauses reading and leaves the following bytes in the unpacker verbatim), pending_inert (no event about another connection touches the parked bytes, pending look-ups, paused state or identity), verdict_success (exactly the synchronous authenticate state change followed by ONE loop pass over the parked bytes) with sync_auth_success (the synchronous path is the same function), verdict_failure (ERROR + close only; parked bytes never processed). The single end-to-end commutation theorem across the two store configurations (verdict_commutes in DESIGN.md) is NOT proved: partial, stated in the Lean file header.', BROKER_NOTE),
     'C15': ('Theorems: C15.fresh_grace, recovered_not_dropped, fire_iff_due (any state); deadline_is_last_stall (ALL histories: an armed deadline = time of the last pause_writing not followed by resume/expiry + 60 s); dropped_exactly_at_deadline and due_timer_fires_first (ALL valid histories: the clock never passes an armed deadline, the drop happens at exactly pause+60 000 ms and before any other event).', BROKER_NOTE + ' That asyncio calls pause_writing above the high-water mark is library behaviour (not proved).'),
+    'C16': ('Three Lean models written separately from asyncio/protocol.py, blocking/protocol.py and twisted/protocol.py (they differ: asyncio\'s loop stops on a truthy handler result and its unknown-opcode branch returns True). Theorems C16.loops_equal / proto3_equiv: for EVERY byte buffer and EVERY chunk list the three produce the same observations (handler calls with arguments, protocol_error, bytes written, drop, crash) and leave the same bytes buffered — the differing branch is proved unreachable behind the decoder (read_some_of_header); drops_exactly, info_reply. Tie: identical chunks fed in lock-step to recording subclasses of the three real classes and to the three models.', 'Lean kernel + 3 standard axioms; recording subclasses and a fake transport; texts of protocol_error not compared.'),
+    'C17': ('Thin proof + correspondence (as designed): theorems C17.table_configured / table_unknown (memory, JSON, SQLite as whole-string table look-ups for ARBITRARY strings), env_key_injective (variable names of two identities/attributes coincide only if the upper-cased identities and the attributes agree — whatever underscores the identities contain), env_lookup_spec, env_case_insensitive, no_channels_no_grant + split_no_empty (fix D3; Legacy.d3_empty_grant is the pinned counter-example), multi_first / multi_unknown. The hostile-string claim for the real sqlite/json/environ engines is carried by the correspondence run, which builds the REAL stores from generated tables (quotes, SQL, separators, path characters, NUL, case variants, non-ASCII case maps).', 'Lean kernel + 3 standard axioms; sqlite3, json, os.environ, str.upper are modelled not verified — partial on those engines, as stated in DESIGN.md.'),
+    'C18': ('Theorems for ALL parsed contents and ALL reload sequences: C18.all_or_nothing (after a reload the database is exactly the previous one, or the complete new mapping, the latter iff the document is an object whose every entry passes the checks), entry_ok_iff, invalid_keeps_everything, reload_seq (after any sequence: the last valid file\'s mapping, or the initial database). Tie: real Authenticator.load() on valid tables, EVERY truncation prefix of a valid file, type-mutated entries, non-JSON, invalid UTF-8, missing and empty files, in sequences.', 'Lean kernel + 3 standard axioms; json.load is an input of the model; which file-system events trigger load() (inotify) is not modelled — partial there.'),
     'C19': ('Theorems over ALL histories (gauge invariant by induction over every model primitive, Lemmas/BrokerGauge): C19.connections_gauge (= number of registered connections) with quiescent_registered_iff_open, subscription_gauge (per identity AND channel = number of connections of that identity subscribed to it; never negative; no single-authentication assumption after fix D7), channel_total (per channel the gauges add up to the number of subscribed connections), all_zero_when_gone, made_and_lost_once, redundant_requests_move_nothing.', BROKER_NOTE + ' prometheus_client arithmetic is modelled by integer maps.'),
     'C09': ('Theorems over ALL histories and ALL continuations: C09.lost_forgets (after connection_lost in ANY state the record is unregistered, holds no subscription, is in no registry entry), lost_stable / unregistered_stable (stays so under every later event: late verdicts, deadline timers, other traffic), others_unaffected, unregistered_forgotten (covers the broker-forced loss).', BROKER_NOTE),
     'C05': ('Theorem C05.roundtrip: for EVERY in-range message of every opcode the builder succeeds, its 4-byte header equals the bytes produced, the stream decoder yields exactly that one frame and the reader returns the original fields; plus obligations that the extracted limit table admits everything the builders emit. Tie: constants regenerated from protocol.py each run + differential run of msg*/Unpacker/read* against the model.',
